@@ -44,6 +44,33 @@ SEEDED = [
 ]
 
 
+def lifecycle_cfg(ctx, overrides):
+    """LifecycleTotal's configuration is derived from spec/Lifecycle.cfg at run time: Lifecycle.tla belongs to C06 and
+    gains constants; every constant keeps C06's value unless overridden here."""
+    consts = []
+    in_consts = False
+    for line in open(os.path.join(vlib.ROOT, "spec", "Lifecycle.cfg")):
+        t = line.strip()
+        if t.startswith("CONSTANT"):
+            in_consts = True
+            continue
+        if in_consts:
+            if ("=" in t or "<-" in t) and not t.startswith("\\*"):
+                name = t.replace("<-", "=").split("=")[0].strip()
+                consts.append((name, t))
+            elif t:
+                in_consts = False
+    lines = ["SPECIFICATION TSpec", "CONSTANTS"]
+    for name, t in consts:
+        lines.append("  " + ("%s = %s" % (name, overrides[name]) if name in overrides else t))
+    lines += ["INVARIANTS", "  Bounded", "  RestartsCounted", "  ProgressBound", "  NeverStuck", "  EmitInv", "VIEW View",
+              "CHECK_DEADLOCK FALSE"]
+    path = os.path.join(ctx.work, "LifecycleTotal.cfg")
+    with open(path, "w") as f:
+        f.write("\n".join(lines) + "\n")
+    return path
+
+
 def load_cases(paths, prefix):
     cases = []
     for p in paths:
@@ -63,6 +90,10 @@ def case_text(b):
         return "set %s(%s) %s %s(%s) as %s" % (c["vt"], c["l"], c["op"], c["rt"], c["r"], c["form"])
     if c["k"] == "builtin":
         return "%s%s classes %s" % (c["fn"], c["types"], c["classes"])
+    if c["k"] == "prog":
+        return "random program of %d statements" % len(b["prog"]["stmts"])
+    if c["k"] == "request":
+        return "request %s path=%s query=%s headers=%s prog=%s" % (c["method"], c["path"], c["query"], c["headers"], c["prog"])
     return c["k"]
 
 
@@ -104,9 +135,17 @@ def run(ctx):
                          defines={"Mode": '"builtin"' if quick else '"builtin-full"'})),
         ("calls", dict(common, cfg="Total_calls.cfg", tag="calls", defines={"MaxReq": "2" if quick else "3"})),
         ("include", dict(common, cfg="Total_include.cfg", tag="include")),
+        ("request", dict(common, cfg="Total_request.cfg", tag="request")),
         ("lifecycle", dict(module="LifecycleTotal", cfg="LifecycleTotal.cfg", workers=2, timeout=1500, tag="lifecycle",
-                           defines=({"MaxReq": "2", "KCover": "2"} if quick else {"MaxReq": "3", "KCover": "3", "Statuses": "{200, 500}"}))),
+                           extra_files=[lifecycle_cfg(ctx, dict({"Urls": '{"a"}', "JailChoices": "{FALSE}", "MaxRestarts": "3"},
+                                                              **({"MaxReq": "2", "KCover": "2", "Statuses": "{200}"} if quick else
+                                                                 {"MaxReq": "3", "KCover": "3", "Statuses": "{200, 500}"})))])),
     ]
+    # random walks over the statement alphabet of C07 (spec/EvalGen.tla, simulation mode): any program, also one the
+    # reference evaluator stops predicting, must run to a value or a reported error
+    for k in range(2):
+        jobs.append(("walk%d" % k, dict(module="EvalGen", cfg="EvalSim.cfg", workers=1, simulate=(150 if quick else 4000), depth=90,
+                                        timeout=2400, seed=ctx.seed * 1000 + 500 + k, tag="walk")))
     res = tlc_jobs(ctx, jobs)
     for name, r in res.items():
         if r.violated:
@@ -119,7 +158,7 @@ def run(ctx):
                                      "(not all paths)")
 
     cases = []
-    for name in ("assign", "builtin", "calls", "include"):
+    for name in ("assign", "builtin", "calls", "include", "request"):
         cases += load_cases([res[name].beh_path], name[0])
     # lifecycle behaviours are wrapped into the case format
     with open(res["lifecycle"].beh_path) as f:
@@ -130,6 +169,12 @@ def run(ctx):
             cases.append({"id": "l%d" % n, "case": {"k": "lifecycle", "reqs": b["reqs"]}, "allowed": ["value", "error"],
                           "predict": "error" if any(r["outcome"] == "error" for r in b["reqs"]) else "value",
                           "per_req": ",".join(r["outcome"] for r in b["reqs"])})
+    for k in range(2):
+        with open(res["walk%d" % k].beh_path) as f:
+            for n, line in enumerate(f):
+                p = json.loads(line)
+                p.pop("exp", None)
+                cases.append({"id": "w%d_%d" % (k, n + 1), "case": {"k": "prog"}, "prog": p, "allowed": ["value", "error"], "predict": "any"})
     for i, c in enumerate(SEEDED):
         cases.append({"id": "s%d" % (i + 1), "case": c, "allowed": ["value", "error"], "predict": "any"})
     # canary: a case whose child certainly dies - the supervisor must report it as a crash and nothing else
@@ -141,7 +186,8 @@ def run(ctx):
 
     def one(i):
         return watchrun.supervise(vh, ["run"], shards[i], ctx.work, "shard%02d" % i, budget=budget, mem_bytes=6 << 30,
-                                  env={"VERIF_CANARY": "1"})
+                                  env={"VERIF_CANARY": "1"}, family=lambda b: (b["case"]["k"], b["case"].get("fn")),
+                                  max_bad_per_family=4)
     results = {}
     with ThreadPoolExecutor(max_workers=nsh) as ex:
         for r in ex.map(one, range(nsh)):
@@ -164,6 +210,10 @@ def classify(ctx, cases, results):
         out = r.get("outcome")
         rec = {"id": b["id"], "input": {"case": c, "text": r.get("text"), "beh": b}, "observed": {"outcome": out, "msg": r.get("msg")},
                "validated": True, "class": {"family": c["k"], "fn": c.get("fn"), "op": c.get("op"), "vt": c.get("vt"), "rt": c.get("rt")}}
+        if out == "skipped":
+            # the family already produced several crashes / hangs in this shard (they are reported); not run
+            ctx.notes["skipped_after_repeated_crashes"] = ctx.notes.get("skipped_after_repeated_crashes", 0) + 1
+            continue
         if out == "unbound":
             unbound += 1
             why = "%s: %s" % (c.get("fn") or c["k"], (r.get("msg") or "")[:90])
